@@ -449,7 +449,9 @@ func (spt *Tracker) recoverWithPinInfo(ctx context.Context, pi *api.PinInfo) (*a
 	return spt.Status(ctx, pi.Cid), nil
 }
 
-func (spt *Tracker) ipfsStatusAll(ctx context.Context) (map[cid.Cid]*api.PinInfo, error) {
+// ipfsStatusAll returns what IPFS pins recursively or directly, along with
+// the type of each pin.
+func (spt *Tracker) ipfsStatusAll(ctx context.Context) (map[cid.Cid]*api.PinInfo, map[cid.Cid]api.IPFSPinStatus, error) {
 	ctx, span := trace.StartSpan(ctx, "tracker/stateless/ipfsStatusAll")
 	defer span.End()
 
@@ -467,13 +469,14 @@ func (spt *Tracker) ipfsStatusAll(ctx context.Context) (map[cid.Cid]*api.PinInfo
 		)
 		if err != nil {
 			logger.Error(err)
-			return nil, err
+			return nil, nil, err
 		}
 		for k, v := range ipsMapType {
 			ipsMap[k] = v
 		}
 	}
 	pins := make(map[cid.Cid]*api.PinInfo, len(ipsMap))
+	types := make(map[cid.Cid]api.IPFSPinStatus, len(ipsMap))
 	for cidstr, ips := range ipsMap {
 		c, err := cid.Decode(cidstr)
 		if err != nil {
@@ -491,8 +494,9 @@ func (spt *Tracker) ipfsStatusAll(ctx context.Context) (map[cid.Cid]*api.PinInfo
 			},
 		}
 		pins[c] = p
+		types[c] = ips
 	}
-	return pins, nil
+	return pins, types, nil
 }
 
 // localStatus returns a joint set of consensusState and ipfsStatus marking
@@ -528,9 +532,10 @@ func (spt *Tracker) localStatus(ctx context.Context, incExtra bool, filter api.T
 	}
 
 	var localpis map[cid.Cid]*api.PinInfo
+	var localTypes map[cid.Cid]api.IPFSPinStatus
 	// Only query IPFS if we want to status for pinned items
 	if filter.Match(api.TrackerStatusPinned | api.TrackerStatusUnexpectedlyUnpinned) {
-		localpis, err = spt.ipfsStatusAll(ctx)
+		localpis, localTypes, err = spt.ipfsStatusAll(ctx)
 		if err != nil {
 			logger.Error(err)
 			return nil, err
@@ -540,6 +545,8 @@ func (spt *Tracker) localStatus(ctx context.Context, incExtra bool, filter api.T
 	pininfos := make(map[cid.Cid]*api.PinInfo, len(statePins))
 	for _, p := range statePins {
 		ipfsInfo, pinnedInIpfs := localpis[p.Cid]
+		// pinned means pinned in the mode the pin asks for, as in Status()
+		pinnedInIpfs = pinnedInIpfs && localTypes[p.Cid].IsPinned(p.MaxDepth)
 		// base pinInfo object - status to be filled.
 		pinInfo := api.PinInfo{
 			Cid:  p.Cid,
